@@ -31,9 +31,7 @@ use fixedbitset::FixedBitSet;
 #[cfg(not(oxidd_verif))]
 use parking_lot::{Condvar, Mutex, MutexGuard};
 #[cfg(oxidd_verif)]
-use parking_lot::MutexGuard;
-#[cfg(oxidd_verif)]
-use crate::verif_sync::{Condvar, Mutex};
+use crate::verif_sync::{Condvar, Mutex, MutexGuard};
 #[cfg(oxidd_verif)]
 use oxidd_core::verif::{self, site};
 use rustc_hash::FxHasher;
